@@ -60,3 +60,32 @@ Theorem C03_selection w k name :
          end).
 Proof. exact (wrap_member_selects w k name). Qed.
 Print Assumptions C03_selection.
+
+(** Constructor chains (Model/Ctor.v): whatever the constructors of the chain do - call
+    [super().__init__()] first, last, twice or never - [K()] runs every constructor body first,
+    evaluating no invariant in between, and only then, if the class has invariants, evaluates them -
+    inherited first, up to the first falsy one - on the finished object. *)
+From ICV Require Import Ctor CtorCase CtorProofs.
+Theorem C03_outermost_constructor ch V k :
+  exists bodies final,
+    run_body (S (List.length ch)) ch k 0 = (bodies, final) /\
+    Forall (fun e => is_inv e = false) bodies /\
+    construct ch V k =
+      if has_invs ch k
+      then (bodies ++ fst (check_invs V (all_invs ch k) final), snd (check_invs V (all_invs ch k) final))
+      else (bodies, None).
+Proof. exact (construct_shape ch V k). Qed.
+Print Assumptions C03_outermost_constructor.
+
+Theorem C03_constructor_first_falsy V ids st id :
+  snd (check_invs V ids st) = Some id ->
+  exists pre post, ids = pre ++ id :: post /\ V id st = false /\ forall x, In x pre -> V x st = true.
+Proof. exact (check_invs_first V ids st id). Qed.
+
+(** non-vacuity: the idiom of D3 - the base constructor is called first, the sub-class invariant
+    needs an attribute the sub-class constructor sets afterwards *)
+Example C03_constructor_example :
+  construct [{| c_invs := [1]; c_init := Some [] |}; {| c_invs := [2]; c_init := Some [ASuper; AStage 1] |}]
+            (fun id st => match id with 2 => Nat.leb 1 st | _ => true end) 1
+  = ([EInit 1 0; EInit 0 0; EInv 1 1; EInv 2 1], None).
+Proof. reflexivity. Qed.
